@@ -55,6 +55,11 @@ func main() {
 		b, _ := json.Marshal(in)
 		var in2 J
 		json.Unmarshal(b, &in2)
+		if os.Getenv("VERIF_DRY") != "" {
+			// list the inputs only (used to recover the input on which the process crashed)
+			e.emit(in2, nil)
+			return
+		}
 		e.emit(in2, r.run(in2))
 	})
 }
